@@ -227,6 +227,7 @@ func TestProp(t *testing.T) {
 	ex := exclusions{
 		destructure: known.Open("C06-destructured-slot-props-empty"),
 		frozen:      known.Open("C06-include-in-slot-content-frozen"),
+		tmplRoot:    known.Open("C06-template-root-evaluated-twice"),
 		layoutLeak:  known.Open("C06-layout-leaks-instance-slot-content"),
 	}
 
